@@ -37,6 +37,8 @@ PROPS = {
         assumptions=[]),
     'C18': dict(
         gen=gens_sym.gen_c18, consts=['ZUC.lean'], level='proof',
+        level_text='Proof: `eea_refines` / `eia_refines` show that for every key, COUNT, BEARER < 32, DIRECTION < 2 and EVERY LENGTH : u32 the model of eea.rs / eia.rs (word-level XOR with final mask; `find_word` over two adjacent keystream words; `as u8` IV construction) equals the 3GPP bit-stream specification; `eea_involution`, `eia_depends_only`, `eea_depends_only` give the "twice restores the first LENGTH bits" and "depends on exactly the first LENGTH bits" clauses; the keystream itself is C08\'s theorem (hypothesis discharged, no assumption left). Tied to the Rust code by a three-way differential over every LENGTH 0..200/600, multiples of 32, all bearers x directions, trailing garbage.',
+        level_note='Trusted: Lean kernel; Spec.EEA3 transcription (validated on the 3GPP test sets present in the repo); Impl<->Rust tie is sampling. Messages shorter than ceil(LENGTH/32) words panic in code and model (outside the statement; `eea_short_panics`).',
         technique='Lean 4 refinement of word-level EEA3/EIA3 to the bit-stream specification for every LENGTH; differential correspondence',
         assumptions=["message has at least ceil(LENGTH/32) words, BEARER < 32, DIRECTION < 2 (the property's domain)"]),
 }
